@@ -90,8 +90,9 @@ def _compute(what, o, p, t0):
             pass
     elif what == "Sync":
         from evo.core import sync
-        sync.matching_time_indices(o.timestamps, p.timestamps, 0.5, 0.25)
-        sync.matching_time_indices(p.timestamps, o.timestamps, 0.5, -1.0)
+        if len(o.timestamps) and len(p.timestamps):          # (an empty stamp list is not a trajectory; evo's argmin refuses it)
+            sync.matching_time_indices(o.timestamps, p.timestamps, 0.5, 0.25)
+            sync.matching_time_indices(p.timestamps, o.timestamps, 0.5, -1.0)
         try:
             sync.associate_trajectories(o, p, 0.5, 0.25)
         except sync.SyncException:
@@ -176,6 +177,8 @@ def execute(job):
             elif name == "Scale":
                 tgt.scale(2.0)
             elif name == "Reduce":
+                if tgt.num_poses < 2:
+                    break          # the real object is shorter than the model's (fewer matches / other split sizes): no trajectory would be left
                 tgt.reduce_to_ids(list(range(tgt.num_poses - 1)))
             elif name == "Project":
                 tgt.project(trajectory.Plane.XY)
